@@ -11,12 +11,60 @@ import StatsCI.Driver.StatOps
 import StatsCI.Driver.ConfOps
 import StatsCI.Driver.PropOps
 import StatsCI.Driver.ProgOps
+import StatsCI.Driver.RelOps
+import StatsCI.Driver.CoverOps
 
 namespace StatsCI.Driver
 open StatsCI
 
+/-- C11: an `Ok` interval has no NaN bound and its lower bound is not above its upper bound; the
+    only panics are the documented ones -/
+def saneGroup (allowPanic : List String) (g : List String) : List String :=
+  let val (t : String) : Option Float :=
+    match parseF64? t with
+    | some x => some x
+    | none => match parseF32? t with
+      | some x => some x.toFloat
+      | none => (parseNat? t).map Float.ofNat
+  match g with
+  | ["ok", "I2", a, b] =>
+    (match val a, val b with
+     | some x, some y =>
+       (if x.isNaN || y.isNaN then ["Ok-with-NaN-bound"] else []) ++
+       (if x > y then ["Ok-with-lower-above-upper"] else [])
+     | _, _ => [])
+  | ["ok", "IU", a] | ["ok", "IL", a] =>
+    (match val a with
+     | some x => if x.isNaN then ["Ok-with-NaN-bound"] else []
+     | none => [])
+  | "panic" :: c :: _ => if allowPanic.contains c then [] else [s!"undocumented-panic({c})"]
+  | _ => []
+
+def expectWrap (cls innerOp : String) (ev : OpEval) : OpEval :=
+  { needs := ev.needs
+    run := fun crit impl =>
+      let v := ev.run crit impl
+      let allow := if innerOp == "qci" then ["sort", "capacity"] else if innerOp == "wilson" then ["stats_new"] else []
+      let sane := impl.flatMap (saneGroup allow)
+      let first := impl.head?.getD []
+      let c := outcomeClass first
+      let clsBad :=
+        match cls with
+        | "sane" => if c == "ok" then [] else [s!"valid-input-rejected({c})"]
+        | "sane-or-InvalidInputData" => if c == "ok" || c == "InvalidInputData" then [] else [s!"unexpected-outcome({c})"]
+        | other => if c == other then [] else [s!"expected-{other}-got-{c}"]
+      { model := v.model, prop := clsBad ++ sane, skipped := 0 } }
+
+mutual
 /-- evaluate one request; `none` = the line is malformed -/
-def evalLine (prop op : String) (args : List String) : Option OpEval :=
+partial def evalLine (prop op : String) (args : List String) : Option OpEval :=
+  if op == "expect" then
+    match args with
+    | ty :: cls :: innerOp :: rest => (evalLine0 prop innerOp (ty :: rest)).map (expectWrap cls innerOp)
+    | _ => none
+  else evalLine0 prop op args
+
+partial def evalLine0 (prop op : String) (args : List String) : Option OpEval :=
   match args with
   | [] => none
   | ty :: rest =>
@@ -33,7 +81,15 @@ def evalLine (prop op : String) (args : List String) : Option OpEval :=
         | none =>
           match progOp op ty rest with
           | some e => some e
-          | none => progOp09 op ty rest
+          | none =>
+            match progOp09 op ty rest with
+            | some e => some e
+            | none =>
+              match relOps op ty rest with
+              | some e => some e
+              | none => coverOps op ty rest
+
+end
 
 def splitAt (sep : String) (toks : List String) : List String × List String :=
   let pre := toks.takeWhile (· != sep)
@@ -71,6 +127,8 @@ partial def evalLoop (h : IO.FS.Stream) (st : Stats) (lineNo : Nat) : IO Stats :
         let v := ev.run (critOf tbl) (splitBar impl)
         let (e, x) := toksMatch v.model impl
         let mut st := { st with total := st.total + 1, skipped := st.skipped + v.skipped }
+        for i in v.info do
+          IO.println s!"INFO {lineNo} {i}"
         if !v.prop.isEmpty then
           IO.println s!"PROP {lineNo} {" ".intercalate v.prop} :: {short}"
           st := { st with prop := st.prop + 1 }
